@@ -22,12 +22,13 @@ Prints(o) == Exit(o) = 0 /\ ~Eff(o, "q")
 SavesStream(o) == Exit(o) = 0 /\ "O" \in DOMAIN o /\ "j" \notin DOMAIN o       \* -O alone: the whole stream that was read
 JoinsEvents(o) == Exit(o) = 0 /\ "O" \in DOMAIN o /\ "j" \in DOMAIN o           \* -O with -j: events joined by j seconds of silence
 SavesRegions(o) == Exit(o) = 0 /\ "o" \in DOMAIN o                              \* one file per detection
-(* time formats: a printed time is parsed into whole milliseconds W; t = num/den seconds is the exact instant *)
+(* time formats: a printed time is parsed into whole milliseconds W; the exact instant is num/den MILLISECONDS
+   (for a detection at sample f of a stream at rate r: num = 1000 f, den = r) *)
 Abs(a) == IF a < 0 THEN -a ELSE a
 \* %S: three decimals = nearest millisecond (ties and float noise: a twentieth of a millisecond of slack)
-OkS(W, num, den) == 20 * Abs(W * den - 1000 * num) <= 11 * den
+OkS(W, num, den) == 20 * Abs(W * den - num) <= 11 * den
 \* %I and %h/%m/%s/%i: WHOLE milliseconds: never above the instant, less than one below (int(t*1000) on a float may sit one below an exact integer)
-OkI(W, num, den) == W * den <= 1000 * num /\ (1000 * num - W * den < den \/ ((1000 * num) % den = 0 /\ 1000 * num - W * den = den))
+OkI(W, num, den) == W * den <= num /\ (num - W * den < den \/ (num % den = 0 /\ num - W * den = den))
 \* fields h, m, s, i recompose to W with minutes and seconds below 60 and milliseconds below 1000
 OkFields(h, mi, s, i, W) == mi < 60 /\ s < 60 /\ i < 1000 /\ h >= 0 /\ mi >= 0 /\ s >= 0 /\ i >= 0 /\ W = ((h * 60 + mi) * 60 + s) * 1000 + i
 ====================================================================
